@@ -273,7 +273,7 @@ def _dia_get_cases():
     for n in SIZES:
         keys = list(LABELS[:n]) + [(a, b) for a in LABELS[:n] for b in LABELS[:n]]
         if n == 3:
-            keys.append(('A', 'B', 'C'))
+            keys.append((LABELS[0], LABELS[1], LABELS[2]))
         for k in keys:
             def build(f, n=n, k=k):
                 return dict(self=mk_Diameter(f, n), key=k)
